@@ -1548,6 +1548,88 @@ def normalise_format_and_getattr(fn) -> int:
     return int(done > 0)
 
 
+def normalise_return_temps(fn, ref_locals: Optional[Set[str]] = None) -> int:
+    """`tmp = E` directly followed by `return tmp`, with `tmp` occurring nowhere else in the function  ->  `return E`, in place - only for a
+    `tmp` that the reference function does not have (ref_locals: the reference function's locals; None = function unknown to the reference,
+    left alone).  A result named just before it is returned is the same return."""
+    if ref_locals is None:
+        return 0
+    counts: Dict[str, int] = {}
+    for n in ast.walk(fn.node):
+        if isinstance(n, ast.Name):
+            counts[n.id] = counts.get(n.id, 0) + 1
+
+    def blocks():
+        for x in ast.walk(fn.node):
+            for fld in ('body', 'orelse', 'finalbody'):
+                b = getattr(x, fld, None)
+                if isinstance(b, list) and b and isinstance(b[0], ast.stmt):
+                    yield b
+
+    def is_pair(a, r) -> Optional[str]:
+        if isinstance(a, ast.Assign) and len(a.targets) == 1 and isinstance(a.targets[0], ast.Name) and isinstance(r, ast.Return) \
+                and isinstance(r.value, ast.Name) and r.value.id == a.targets[0].id \
+                and not any(isinstance(z, ast.Name) and z.id == a.targets[0].id for z in ast.walk(a.value)):
+            return a.targets[0].id
+        return None
+    pairs: Dict[str, int] = {}
+    for b in blocks():
+        for j in range(len(b) - 1):
+            nm = is_pair(b[j], b[j + 1])
+            if nm:
+                pairs[nm] = pairs.get(nm, 0) + 1
+    eligible = {nm for nm, k in pairs.items() if nm not in ref_locals and nm not in fn.params and counts.get(nm, 0) == 2 * k}
+    if not eligible:
+        return 0
+    done = 0
+    for b in list(blocks()):
+        i = 0
+        while i + 1 < len(b):
+            nm = is_pair(b[i], b[i + 1])
+            if nm in eligible:
+                b[i:i + 2] = [ast.copy_location(ast.Return(value=b[i].value), b[i + 1])]
+                done += 1
+            i += 1
+    if done:
+        ast.fix_missing_locations(fn.node)
+    return int(done > 0)
+
+
+def normalise_else_after_exit(fn) -> int:
+    """`if c: <block that always returns / raises> else: REST`  ->  `if c: <block>` followed by REST, in place (the early-exit form; an elif
+    chain is a nested if in the else and is flattened the same way).  The two are the same control flow; the path rules and the recognisers
+    of guards read the early-exit form."""
+    from .astutil import always_exits
+    if 'If' not in _vocab(fn):
+        return 0
+    done = 0
+
+    def fix(body: List[ast.stmt]) -> List[ast.stmt]:
+        nonlocal done
+        out: List[ast.stmt] = []
+        for st in body:
+            for fld in ('body', 'orelse', 'finalbody'):
+                b = getattr(st, fld, None)
+                if isinstance(b, list) and b and isinstance(b[0], ast.stmt):
+                    setattr(st, fld, fix(b))
+            if isinstance(st, ast.Try):
+                for h in st.handlers:
+                    h.body = fix(h.body)
+            if isinstance(st, ast.If) and st.orelse and always_exits(st.body):
+                rest = st.orelse
+                st.orelse = []
+                out.append(st)
+                out.extend(rest)
+                done += 1
+            else:
+                out.append(st)
+        return out
+    fn.node.body = fix(fn.node.body)
+    if done:
+        ast.fix_missing_locations(fn.node)
+    return int(done > 0)
+
+
 def normalise_yoda(fn) -> int:
     """`0 < x` -> `x > 0`, `'' == ext` -> `ext == ''`, `Result.MISCTYPE == code` -> `code == Result.MISCTYPE`: a single comparison with a
     CONSTANT (literal, signed literal, ALL-CAPS attribute / name) on the left and a non-constant on the right is written with the constant
@@ -2397,6 +2479,15 @@ def flatten_model(model) -> Optional[Flattener]:
     fl.calls = run(normalise_calls, model)
     fl.dispatch = run(normalise_dispatch)
     fl.out_ufuncs = run(normalise_out_ufuncs)
+    try:
+        with open(REFERENCE) as f_:
+            _shapes = json.load(f_).get('local_shapes', {})
+    except OSError:
+        _shapes = {}
+    fl.return_temps = 0
+    for f in funcs:
+        r_ = _shapes.get('%s::%s' % (f.path, f.qualname))
+        fl.return_temps += normalise_return_temps(f, set(r_[1]) if r_ else None)
     fl.yoda = run(normalise_yoda)
     fl.negations = run(normalise_negations)
     fl.casts = run(normalise_casts)
